@@ -550,9 +550,24 @@ func (c *Ctx) applyContract(fr *Frame, st *State, ct *Contract, callee *ssa.Func
 		st.reach = c.def("reach", "Bool", and(st.reach, not(or(exitConds...))))
 	}
 	c.havocModifies(ct, env, st)
-	// ghost updates
+	// ghost updates: exact where the contract declares them (`ghost g += e`), otherwise
+	// the callee may have charged an unknown amount (counters only grow) unless it is
+	// declared pure / `modifies nothing`
+	explicit := map[string]bool{}
 	for _, cl := range ct.byKind("ghost") {
 		c.applyGhost(cl, env, st)
+		if i := strings.Index(cl.Text, "+="); i > 0 {
+			explicit[strings.TrimSpace(cl.Text[:i])] = true
+		}
+	}
+	if !ct.Pure && !modifiesNothing(ct) {
+		for _, g := range []string{"cpu", "mem"} {
+			if cur, ok := st.ghost[g]; ok && !explicit[g] {
+				ng := c.decl("ghost_"+g, "Int")
+				c.assume("true", fmt.Sprintf("(>= %s %s)", ng, cur))
+				st.ghost[g] = ng
+			}
+		}
 	}
 	// results
 	var res Val
@@ -573,6 +588,18 @@ func (c *Ctx) applyContract(fr *Frame, st *State, ct *Contract, callee *ssa.Func
 	c.bindResults(penv, callee, call, rvals)
 	for _, cl := range ct.byKind("ensures") {
 		c.assume(st.reach, c.specBool(penv, cl.Expr))
+	}
+	// vacuity guard: the assumed postcondition must leave the continuation reachable
+	hasWhen := false
+	for _, ex := range exits {
+		if ex.When != nil {
+			hasWhen = true // the callee may legitimately never return on this path
+		}
+	}
+	if fr.top && len(ct.byKind("ensures")) > 0 && c.coverCalls && !hasWhen {
+		o := c.oblige("cover", fmt.Sprintf("cover/after-call:%s#%d", name, seq), "true", not(st.reach), c.pos(pos))
+		o.Cover = true
+		o.Desc = "vacuity guard: the callee's assumed postcondition is satisfiable on a reachable path"
 	}
 	// loaded pointers < alloc
 	for _, rv := range rvals {
@@ -1005,4 +1032,17 @@ func siteInstr(site ssa.Value) ssa.Instruction {
 		return in
 	}
 	return nil
+}
+
+func modifiesNothing(ct *Contract) bool {
+	mods := ct.byKind("modifies")
+	if len(mods) == 0 {
+		return false
+	}
+	for _, cl := range mods {
+		if len(cl.Exprs) > 0 {
+			return false
+		}
+	}
+	return true
 }
